@@ -330,7 +330,7 @@ class OffsetDateTime:
         :return: The instant represented by this value, in the specified time zone.
         """
         _Preconditions._check_not_null(zone, "zone")
-        return self.to_instant().in_zone(zone=zone)
+        return self.to_instant().in_zone(zone=zone, calendar=self.calendar)
 
     def to_aware_datetime(self) -> datetime:
         """Returns an aware ``datetime.datetime`` correspdonding to this offset date and time.
@@ -601,6 +601,7 @@ class OffsetDateTime:
         return OffsetDateTime._ctor(
             instant=self.to_instant() + duration,
             offset=self.offset,
+            calendar=self.calendar,
         )
 
     @staticmethod
@@ -688,6 +689,7 @@ class OffsetDateTime:
             return OffsetDateTime._ctor(
                 instant=self.to_instant() - other,
                 offset=self.offset,
+                calendar=self.calendar,
             )
         if isinstance(other, OffsetDateTime):
             return self.to_instant() - other.to_instant()
